@@ -40,8 +40,10 @@ where
     } = proof;
 
     let cap_height = params.config.cap_height;
+    ensure!(commit_phase_merkle_caps.len() == params.reduction_arity_bits.len());
     for cap in commit_phase_merkle_caps {
-        ensure!(cap.height() == cap_height);
+        // Compare lengths: `MerkleCap::height` panics unless the length is a power of two.
+        ensure!(cap.len() == 1 << cap_height);
     }
 
     for query_round in query_round_proofs {
